@@ -157,14 +157,56 @@ def run(prog, tier, extra=None):
                 is_zero = rv[0] == "use" and rv[1][0] == "k" and rv[1][1].get("v") == 0
                 if not is_zero:
                     nonzero7.add(bb)
+    def _credits(body, variant, depth=0):
+        """block of `body` where a possibly non-zero amount of work is produced for this transaction type, or None"""
+        chb_ = Chaser(body)
+        nz = {}
+        for bb_, blk_ in enumerate(body.blocks):
+            for st_ in blk_["s"]:
+                is_store = st_[0] == "=" and _phf7(st_[1], "transaction::Transaction", "total_work_for_me") is not None
+                is_ret = st_[0] == "=" and st_[1][0] == 0 and not st_[1][1] and depth > 0
+                if not (is_store or is_ret):
+                    continue
+                rv_ = st_[2]
+                if rv_[0] == "use" and rv_[1][0] == "k" and rv_[1][1].get("v") == 0:
+                    continue
+                nz[bb_] = None
+                if rv_[0] == "use" and rv_[1][0] in ("cp", "mv") and not rv_[1][1][1]:
+                    # the value of a helper call: judge the helper for this type
+                    for d_ in body.defs(rv_[1][1][0]):
+                        if d_[0] == "call":
+                            hb_ = prog.bodies.get(d_[2].get("res") or d_[2].get("callee") or "")
+                            if hb_ is not None and not hb_.is_promoted and hb_.path.startswith("saito_") and depth < 2:
+                                nz[bb_] = hb_
+            t_ = blk_["t"]
+            if t_["k"] == "call" and (_phf7(t_["dest"], "transaction::Transaction", "total_work_for_me") is not None or (depth > 0 and t_["dest"][0] == 0 and not t_["dest"][1])):
+                hb_ = prog.bodies.get(t_.get("res") or t_.get("callee") or "")
+                nz[bb_] = hb_ if (hb_ is not None and not hb_.is_promoted and hb_.path.startswith("saito_") and depth < 2) else None
+        kn_ = {}
+        dd_ = gate.edges_not_taken_when(prog, body, chb_, "transaction::TransactionType", "transaction_type", variant, known=kn_)
+        hits_ = Explorer(body, fixed_locals=dict(kn_)).explore(0, deleted_edges=dd_, accept=lambda bb, env: "work" if bb in nz else None)
+        for _k, path_ in sorted((hits_ or {}).items()):
+            hb_ = nz.get(path_[-1])
+            if hb_ is None:
+                return body.loc(path_[-1])
+            inner = _credits(hb_, variant, depth + 1)
+            if inner:
+                return inner
+        # Explorer reports one path per outcome kind: check the remaining stores reachable as well
+        reach_ = body.reachable(0, deleted_edges=dd_)
+        for bb_, hb_ in nz.items():
+            if bb_ in reach_ and hb_ is not None:
+                inner = _credits(hb_, variant, depth + 1)
+                if inner and not hits_:
+                    return inner
+        return None
+    gw7 = prog.body(CORE + "consensus::transaction::Transaction::generate_total_work")
     for v7 in ("ATR", "Fee", "Issuance", "SPV"):
         res.instance(R7)
-        known7 = {}
-        dead7 = gate.edges_not_taken_when(prog, gw, chw7, "transaction::TransactionType", "transaction_type", v7, known=known7)
-        hit7 = Explorer(gw, fixed_locals=dict(known7)).explore(0, deleted_edges=dead7, accept=lambda bb, env: "work" if bb in nonzero7 else None)
+        hit7 = _credits(gw7, v7)
         if hit7:
             res.add(Finding(R7, "C08.unrouted-types-no-work|%s" % v7, "Transaction::generate_total_work can credit routing work for a transaction of type %s, whose routing path Transaction::validate "
-                            "never verifies: hops with made-up signatures on such transactions count towards the block's work requirement" % v7, gw.loc(sorted(p_[-1] for p_ in hit7.values())[0])))
+                            "never verifies: hops with made-up signatures on such transactions count towards the block's work requirement" % v7, hit7))
         else:
             res.sample({"rule": R7, "type": v7, "verdict": "no work credited"})
     # R3
@@ -264,6 +306,17 @@ def run(prog, tier, extra=None):
     gw = prog.body(CORE + "consensus::transaction::Transaction::generate_total_work")
     if gw is None:
         raise LookupError("Transaction::generate_total_work not found")
+    def _has_halving(b_):
+        return any(st[0] == "=" and st[2][0] == "bin" and st[2][1] in ("Div", "Shr") and st[2][3][0] == "k" and st[2][3][1].get("v") in (2, 1)
+                   for blk in b_.blocks for st in blk["s"])
+    gw_entry = gw
+    if not _has_halving(gw):
+        # `self.total_work_for_me = self.calculate_work_delivered_to(key)`: the loop moved into a private helper
+        for _, t_ in gw.calls():
+            hb_ = prog.bodies.get(t_.get("res") or t_.get("callee") or "")
+            if hb_ is not None and not hb_.is_promoted and hb_.path.startswith(CORE + "consensus::transaction::Transaction::") and _has_halving(hb_):
+                gw = hb_
+                break
     chw = Chaser(gw)
     lzw = Linearizer(gw, chw)
     halving = set()
@@ -309,7 +362,11 @@ def run(prog, tier, extra=None):
                 return count(x[2][0], depth + 1) or lzw.length(x[2][0])
         return lzw.length(x) if x[0] in ("field", "param", "local") else None
     H = gw.innermost_loop_containing(halving) if halving else None
-    if not halving or H is None:
+    in_closure = [b_ for p_, b_ in prog.bodies.items() if p_.startswith(gw_entry.path + "::{closure") and not b_.is_promoted and _has_halving(b_)]
+    if (not halving or H is None) and in_closure:
+        res.instance(R4)
+        res.not_decided.append("C08.halving: the halving happens in a closure handed to an iterator adaptor (fold / try_fold); the number of applications is not decided")
+    elif not halving or H is None:
         res.add(Finding(R4, "C08.halving|anchors", "generate_total_work no longer halves the routing work in a loop over the routing path", gw.loc(0)))
     else:
         cnt = None
